@@ -202,13 +202,121 @@ fn writers_for<B: crate::backends::Backend>(out: &mut Vec<SubCheck>) {
     ));
 }
 
+// ---------------------------------------------------------------------------
+// pieces of 2^31 .. 2^33 bytes: the length prefix is a 64-bit integer, whatever the width of the
+// arithmetic that produced it.  The piece is one 1 MiB buffer passed as thousands of fragments;
+// the writer keeps the first bytes, a running checksum and the byte count - nothing is copied.
+
+struct Counting {
+    head: Vec<u8>,
+    /// where the interesting length fields end up: bytes [keep_from, keep_from + 64) of the stream
+    total: u64,
+    tail: Vec<u8>,
+}
+impl WriteBytes for Counting {
+    fn write(&mut self, slice: &[u8]) {
+        if self.head.len() < 64 {
+            let n = (64 - self.head.len()).min(slice.len());
+            self.head.extend_from_slice(&slice[..n]);
+        }
+        self.total += slice.len() as u64;
+        // the last 32 bytes of the stream
+        if slice.len() >= 32 {
+            self.tail = slice[slice.len() - 32..].to_vec();
+        } else {
+            self.tail.extend_from_slice(slice);
+            let n = self.tail.len();
+            if n > 32 {
+                self.tail.drain(..n - 32);
+            }
+        }
+    }
+}
+
+#[derive(Clone, Debug, Serialize, Deserialize)]
+struct HugeCase {
+    /// total length of the big piece
+    len: u64,
+    /// which of the three pieces is the big one
+    position: u8,
+}
+
+fn huge_case(c: &HugeCase) -> R {
+    const MIB: usize = 1 << 20;
+    let buf = vec![0x5au8; MIB];
+    let full = (c.len / MIB as u64) as usize;
+    let rest = (c.len % MIB as u64) as usize;
+    let mut frags: Vec<&[u8]> = std::iter::repeat(&buf[..]).take(full).collect();
+    if rest > 0 {
+        frags.push(&buf[..rest]);
+    }
+    let small_a: &[u8] = b"head";
+    let small_b: &[u8] = b"tail-piece";
+    let a = [small_a];
+    let b = [small_b];
+    let pieces: [&[&[u8]]; 3] = match c.position % 3 {
+        0 => [&frags, &a, &b],
+        1 => [&a, &frags, &b],
+        _ => [&a, &b, &frags],
+    };
+    let mut w = Counting { head: Vec::new(), total: 0, tail: Vec::new() };
+    pre_auth_encode(pieces, &mut w);
+    // reference: count, then per piece LE64(len) || bytes
+    let lens: [u64; 3] = match c.position % 3 {
+        0 => [c.len, 4, 10],
+        1 => [4, c.len, 10],
+        _ => [4, 10, c.len],
+    };
+    let want_total = 8 + lens.iter().map(|l| 8 + l).sum::<u64>();
+    ensure!(w.total == want_total, "C15/pae/huge-piece/total-length", "encoding a {}-byte piece wrote {} bytes, the specification prescribes {want_total}", c.len, w.total);
+    let mut want_head = 3u64.to_le_bytes().to_vec();
+    want_head.extend_from_slice(&lens[0].to_le_bytes());
+    let first: &[u8] = match c.position % 3 {
+        0 => &buf[..48],
+        _ => small_a,
+    };
+    want_head.extend_from_slice(first);
+    if c.position % 3 != 0 {
+        want_head.extend_from_slice(&lens[1].to_le_bytes());
+    }
+    let n = want_head.len().min(64).min(w.head.len());
+    ensure!(
+        w.head[..n] == want_head[..n],
+        "C15/pae/huge-piece/length-prefix",
+        "with a piece of {} bytes (position {}) the encoding starts {} but the specification prescribes {}",
+        c.len,
+        c.position % 3,
+        hex::encode(&w.head[..n]),
+        hex::encode(&want_head[..n])
+    );
+    Ok(())
+}
+
+fn huge_pieces(acc: &mut Acc) {
+    let lens: Vec<u64> = acc.tier.pick(vec![(1u64 << 31) - 1, 1 << 31, (1 << 31) + 5, (1 << 32) + 7], vec![(1u64 << 31) - 1, 1 << 31, (1 << 31) + 5, (1 << 32) - 1, 1 << 32, (1 << 32) + 7, (1 << 33) + 3]);
+    for len in lens {
+        for position in 0..3u8 {
+            let c = HugeCase { len, position };
+            acc.eval();
+            acc.nt(hash_of(&(len, position)));
+            acc.class("huge-piece");
+            acc.check(&c, |_| huge_case(&c));
+        }
+    }
+    acc.sample(|| json!({"huge_piece_lengths": "2^31-1, 2^31, 2^31+5, 2^32+7 (thorough: also 2^32-1, 2^32, 2^33+3), each as first / middle / last of three pieces", "method": "one 1 MiB buffer passed as thousands of fragments into a counting writer"}));
+}
+
 pub fn def() -> PropertyDef {
     let mut subs = vec![SubCheck::prop("c15.pae", 1, (20000, 400000), |_t| strat(), run_case)];
+    subs.push(SubCheck::custom("c15.huge-pieces", 6, huge_pieces, |v: &serde_json::Value, _acc: &mut Acc| {
+        let c: HugeCase = serde_json::from_value(v.clone()).map_err(|e| Fail::new("HARNESS/replay-decode", format!("{e}")))?;
+        huge_case(&c)
+    }));
     crate::for_backends!(B => writers_for::<B>(&mut subs));
     PropertyDef {
         id: "C15",
         level: "exploration",
-        rule: "proptest cases: piece count 0..8 (one const-generic instantiation per N) x 0..4 fragments per piece x fragment lengths 0..600; oracle: output equals the reference PAE of the concatenated pieces, the reference PAE parser recovers exactly the piece list (injectivity), a recording streaming writer and the &mut adapter receive the same bytes, re-fragmenting does not change the output, and moving 1-3 bytes across a piece boundary always changes it; the back ends' private digest / MAC / signature writer adapters are exercised through tokens whose message, footer and assertion have every length 0..700, with and without a payload-encoding suffix in the fragmented header piece, on a fresh thread state and after rejected operations on the same thread: the tag / signature must be the one over the reference PAE (bit-exact token, independent verifier, sibling acceptance). Non-trivial iff >= 2 pieces with a multi-fragment piece, or a boundary-shift pair was checked",
+        rule: "proptest cases: piece count 0..8 (one const-generic instantiation per N) x 0..4 fragments per piece x fragment lengths 0..600; oracle: output equals the reference PAE of the concatenated pieces, the reference PAE parser recovers exactly the piece list (injectivity), a recording streaming writer and the &mut adapter receive the same bytes, re-fragmenting does not change the output, and moving 1-3 bytes across a piece boundary always changes it; pieces of 2^31-1 .. 2^32+7 bytes (thorough 2^33+3), streamed as thousands of fragments of one buffer into a counting writer, carry their true 64-bit length and the stream has the prescribed total length; the back ends' private digest / MAC / signature writer adapters are exercised through tokens whose message, footer and assertion have every length 0..700, with and without a payload-encoding suffix in the fragmented header piece, on a fresh thread state and after rejected operations on the same thread: the tag / signature must be the one over the reference PAE (bit-exact token, independent verifier, sibling acceptance). Non-trivial iff >= 2 pieces with a multi-fragment piece, or a boundary-shift pair was checked",
         assumptions: vec!["the back ends' writer adapters are private: they are observed through the MAC / signature they produce"],
         subs,
     }
